@@ -313,14 +313,26 @@ func SlowLowerCase(rng *rand.Rand, requests int) Case {
 	}
 	c := Case{Stack: StackCfg{PortBuf: pickInt(rng, 2, 4, 8), Top: []Node{top}}}
 	g := uint64(1) << uint(log2)
-	lines := pickInt(rng, 3, 4, 6, 8)
+	lines := pickInt(rng, 12, 16, 24, 32)
 	w := WorkloadCfg{Base: pickUint(rng, 0, 1<<20, 1<<32+1<<16), Size: lines * int(g), Concurrency: 6 + rng.Intn(11)}
 	pid := uint32(rng.Intn(3))
+	// phase 1: one sweep over all lines in random order, mostly full-line writes: every miss evicts a
+	// dirty victim that is not touched again before the sweep ends (so a lost write-back stays silent
+	// until the backing storage is inspected); phase 2: random re-accesses of few lines
+	order := rng.Perm(lines)
+	hot := pickInt(rng, 3, 4, 6)
 	for i := 0; i < requests; i++ {
-		line := uint64(rng.Intn(lines))
+		var line uint64
+		sweep := i < lines
+		if sweep {
+			line = uint64(order[i])
+		} else {
+			line = uint64(order[rng.Intn(hot)])
+		}
 		r := Req{Addr: w.Base + line*g, Len: int(g), PID: pid}
-		switch x := rng.Intn(100); {
-		case x < 65:
+		x := rng.Intn(100)
+		switch {
+		case x < 65 || (sweep && x < 85):
 			r.Kind, r.Class = "write", "full"
 		case x < 85:
 			r.Kind, r.Class = "read", "read"
@@ -339,11 +351,12 @@ func SlowLowerCase(rng *rand.Rand, requests int) Case {
 				r.Data[j] = byte(1 + rng.Intn(255))
 			}
 		}
-		if rng.Intn(12) == 0 {
+		if !sweep && rng.Intn(12) == 0 {
 			r.Wait = 1 + rng.Intn(3)
 		}
 		w.Script = append(w.Script, r)
 	}
+	w.Sweep = min(lines, requests)
 	c.Work = w
 	return c
 }
